@@ -17,6 +17,26 @@ namespace TfelVerif.C09
 section ext
 open ExtRat
 
+@[simp] theorem extNum_lt : extNum.lt = ExtRat.lt := rfl
+@[simp] theorem extNum_isFinite : extNum.isFinite = ExtRat.isFinite := rfl
+@[simp] theorem extNum_isNaN : extNum.isNaN = ExtRat.isNaN := rfl
+@[simp] theorem extNum_isZero : extNum.isZero = ExtRat.isZero := rfl
+@[simp] theorem extNum_add : extNum.add = ExtRat.add := rfl
+@[simp] theorem extNum_sub : extNum.sub = ExtRat.sub := rfl
+@[simp] theorem extNum_mul : extNum.mul = ExtRat.mul := rfl
+@[simp] theorem extNum_div : extNum.div = ExtRat.div := rfl
+@[simp] theorem extNum_neg : extNum.neg = ExtRat.neg := rfl
+@[simp] theorem extNum_zero : extNum.zero = fin 0 := rfl
+@[simp] theorem extNum_two : extNum.two = fin 2 := rfl
+@[simp] theorem extNum_nan : extNum.nan = nan := rfl
+@[simp] theorem lt_fin (a b : Rat) : ExtRat.lt (fin a) (fin b) = decide (a < b) := rfl
+@[simp] theorem isFinite_fin (a : Rat) : ExtRat.isFinite (fin a) = true := rfl
+@[simp] theorem isNaN_fin (a : Rat) : ExtRat.isNaN (fin a) = false := rfl
+@[simp] theorem isNaN_nan : ExtRat.isNaN nan = true := rfl
+@[simp] theorem isFinite_nan : ExtRat.isFinite nan = false := rfl
+@[simp] theorem isFinite_pinf : ExtRat.isFinite pinf = false := rfl
+@[simp] theorem isFinite_ninf : ExtRat.isFinite ninf = false := rfl
+
 /-- the bracket is in one of the three states the code can produce -/
 def WF (b : Bracket ExtRat) : Prop :=
   (b.xmin = nan ∧ b.xmax = nan) ∨
@@ -40,37 +60,39 @@ def Shrink (b b' : Bracket ExtRat) : Prop :=
 /-- "once bracketed, stays bracketed and only shrinks" -/
 def Keeps (b b' : Bracket ExtRat) : Prop := Good b → Good b' ∧ Shrink b b'
 
-theorem Good.wf {b : Bracket ExtRat} (h : Good b) : WF b := by
-  obtain ⟨lo, fl, hi, fh, rfl, hle, _⟩ := h
+/-- both bounds set -/
+def Full (b : Bracket ExtRat) : Prop :=
+  ∃ lo fl hi fh, b = ⟨fin lo, fin fl, fin hi, fin fh⟩ ∧ lo ≤ hi
+
+theorem Full.wf {b : Bracket ExtRat} (h : Full b) : WF b := by
+  obtain ⟨lo, fl, hi, fh, rfl, hle⟩ := h
   exact Or.inr (Or.inr ⟨lo, fl, hi, fh, rfl, rfl, rfl, rfl, hle⟩)
+
+theorem Good.full {b : Bracket ExtRat} (h : Good b) : Full b := by
+  obtain ⟨lo, fl, hi, fh, rfl, hle, _⟩ := h
+  exact ⟨lo, fl, hi, fh, rfl, hle⟩
+
+theorem Good.wf {b : Bracket ExtRat} (h : Good b) : WF b := h.full.wf
 
 theorem sameSign_iff (a b : ExtRat) : sameSign extNum a b = true ↔ sgn extNum a = sgn extNum b := by
   simp [sameSign]
 
-theorem bracketed_iff {b : Bracket ExtRat} (h : WF b) : bracketed extNum b = true ↔ Good b := by
+theorem sameSign_false_iff (a b : ExtRat) : sameSign extNum a b = false ↔ sgn extNum a ≠ sgn extNum b := by
+  simp [sameSign]
+
+theorem bracketed_of_good {b : Bracket ExtRat} (h : Good b) : bracketed extNum b = true := by
+  obtain ⟨lo, fl, hi, fh, rfl, _, hs⟩ := h
+  simp [bracketed, (sameSign_false_iff _ _).mpr hs]
+
+theorem good_of_bracketed {b : Bracket ExtRat} (h : WF b) (hb : bracketed extNum b = true) : Good b := by
   rcases h with ⟨h1, h2⟩ | ⟨lo, fl, h1, h2, h3⟩ | ⟨lo, fl, hi, fh, h1, h2, h3, h4, hle⟩
-  · constructor
-    · intro hb; simp [bracketed, extNum, h1, ExtRat.isFinite] at hb
-    · rintro ⟨lo, fl, hi, fh, rfl, _, _⟩; cases h1
-  · constructor
-    · intro hb; simp [bracketed, extNum, h3, ExtRat.isFinite] at hb
-    · rintro ⟨lo, fl, hi, fh, rfl, _, _⟩; cases h3
+  · simp [bracketed, h1] at hb
+  · simp [bracketed, h3] at hb
   · obtain ⟨x1, f1, x2, f2⟩ := b
     simp only at h1 h2 h3 h4
     subst h1 h2 h3 h4
-    constructor
-    · intro hb
-      refine ⟨lo, fl, hi, fh, rfl, hle, ?_⟩
-      intro hs
-      have := (sameSign_iff (fin fl) (fin fh)).mpr hs
-      simp [bracketed, this] at hb
-    · rintro ⟨lo', fl', hi', fh', heq, _, hs⟩
-      cases heq
-      have : sameSign extNum (fin fl) (fin fh) = false := by
-        cases hss : sameSign extNum (fin fl) (fin fh)
-        · rfl
-        · exact absurd ((sameSign_iff _ _).mp hss) hs
-      simp [bracketed, extNum, ExtRat.isFinite, this]
+    simp only [bracketed, extNum_isFinite, isFinite_fin, Bool.true_and, Bool.not_eq_true'] at hb
+    exact ⟨lo, fl, hi, fh, rfl, hle, (sameSign_false_iff _ _).mp hb⟩
 
 theorem Shrink.refl_of_good {b : Bracket ExtRat} (h : Good b) : Shrink b b := by
   obtain ⟨lo, fl, hi, fh, rfl, _, _⟩ := h
@@ -98,34 +120,137 @@ theorem Inside.of_shrink {a b : Bracket ExtRat} {x : ExtRat} (hs : Shrink a b) (
   cases f1; cases f2
   exact ⟨lo, hi', q, e1, e2, rfl, le_trans l1 m1, le_trans m2 l2⟩
 
-theorem wf_updateRange (a fa b fb : Rat) : WF (updateRange extNum (fin a) (fin fa) (fin b) (fin fb)) := by
+theorem full_updateRange (a fa b fb : Rat) : Full (updateRange extNum (fin a) (fin fa) (fin b) (fin fb)) := by
   unfold updateRange
   by_cases h : a < b
-  · simp only [extNum, ExtRat.lt, h, decide_true, if_true]
-    exact Or.inr (Or.inr ⟨a, fa, b, fb, rfl, rfl, rfl, rfl, h.le⟩)
-  · simp only [extNum, ExtRat.lt, h, decide_false]
-    exact Or.inr (Or.inr ⟨b, fb, a, fa, rfl, rfl, rfl, rfl, not_lt.mp h⟩)
+  · simp only [extNum_lt, lt_fin, h, decide_true, if_true]
+    exact ⟨a, fa, b, fb, rfl, h.le⟩
+  · simp only [extNum_lt, lt_fin, h, decide_false]
+    exact ⟨b, fb, a, fa, rfl, not_lt.mp h⟩
 
 /-- `updateBounds` keeps the bracket well formed -/
 theorem wf_updateBounds {b : Bracket ExtRat} (h : WF b) (x f : ExtRat) : WF (updateBounds extNum b x f) := by
   unfold updateBounds
-  cases x <;> cases f <;> simp only [extNum, ExtRat.isFinite, Bool.not_true, Bool.not_false, Bool.or_self,
-    Bool.or_true, Bool.true_or, if_true, Bool.false_eq_true, if_false] <;> try exact h
+  cases x <;> cases f <;> simp only [extNum_isFinite, isFinite_fin, isFinite_nan, isFinite_pinf, isFinite_ninf,
+    Bool.not_true, Bool.not_false, Bool.or_self, Bool.or_true, Bool.true_or, if_true, Bool.false_eq_true,
+    if_false] <;> try exact h
   rename_i x f
+  obtain ⟨x1, f1, x2, f2⟩ := b
   rcases h with ⟨h1, h2⟩ | ⟨lo, fl, h1, h2, h3⟩ | ⟨lo, fl, hi, fh, h1, h2, h3, h4, hle⟩
-  · simp only [h1, ExtRat.isNaN, if_true]
-    exact Or.inr (Or.inl ⟨x, f, rfl, rfl, h2⟩)
-  · simp only [h1, h2, h3, ExtRat.isNaN, Bool.false_eq_true, if_false, if_true]
-    exact wf_updateRange _ _ _ _
-  · have hwf : WF b := Or.inr (Or.inr ⟨lo, fl, hi, fh, h1, h2, h3, h4, hle⟩)
-    simp only [h1, h2, h3, h4, ExtRat.isNaN, Bool.false_eq_true, if_false]
-    split_ifs <;> first | exact hwf | exact wf_updateRange _ _ _ _ | skip
-    all_goals first
-      | exact Or.inr (Or.inr ⟨x, f, hi, fh, rfl, rfl, h3, h4, by
-          rename_i hc; simp only [ExtRat.lt, Bool.and_eq_true, decide_eq_true_eq] at hc; exact hc.2.le⟩)
-      | exact Or.inr (Or.inr ⟨lo, fl, x, f, h1, h2, rfl, rfl, by
-          rename_i hc; simp only [ExtRat.lt, Bool.and_eq_true, decide_eq_true_eq] at hc; exact hc.2.le⟩)
-      | skip
+  · simp only at h1 h2; subst h1 h2
+    simp only [extNum_isNaN, isNaN_nan, if_true]
+    exact Or.inr (Or.inl ⟨x, f, rfl, rfl, rfl⟩)
+  · simp only at h1 h2 h3; subst h1 h2 h3
+    simp only [extNum_isNaN, isNaN_nan, isNaN_fin, Bool.false_eq_true, if_false, if_true]
+    exact (full_updateRange _ _ _ _).wf
+  · simp only at h1 h2 h3 h4; subst h1 h2 h3 h4
+    have hfull : Full (⟨fin lo, fin fl, fin hi, fin fh⟩ : Bracket ExtRat) := ⟨lo, fl, hi, fh, rfl, hle⟩
+    simp only [extNum_isNaN, isNaN_fin, Bool.false_eq_true, if_false]
+    by_cases s1 : sameSign extNum (fin fl) (fin fh) = true
+    · rw [if_pos s1]
+      by_cases s2 : sameSign extNum (fin fl) (fin f) = true
+      · rw [if_pos s2]
+        have hb1 : Full (if extNum.lt (fin x) (fin lo) = true then updateRange extNum (fin hi) (fin fh) (fin x) (fin f)
+            else (⟨fin lo, fin fl, fin hi, fin fh⟩ : Bracket ExtRat)) := by
+          split_ifs
+          · exact full_updateRange _ _ _ _
+          · exact hfull
+        generalize (if extNum.lt (fin x) (fin lo) = true then updateRange extNum (fin hi) (fin fh) (fin x) (fin f)
+            else (⟨fin lo, fin fl, fin hi, fin fh⟩ : Bracket ExtRat)) = B at hb1 ⊢
+        obtain ⟨a, fa, c, fc, rfl, hac⟩ := hb1
+        dsimp only
+        split_ifs
+        · exact (full_updateRange _ _ _ _).wf
+        · exact Full.wf ⟨a, fa, c, fc, rfl, hac⟩
+      · rw [if_neg s2]
+        split_ifs <;> exact (full_updateRange _ _ _ _).wf
+    · rw [if_neg s1]
+      split_ifs with c1 c2 c3
+      · simp only [extNum_lt, lt_fin, Bool.and_eq_true, decide_eq_true_eq] at c2
+        exact Full.wf ⟨x, f, hi, fh, rfl, c2.2.le⟩
+      · exact hfull.wf
+      · simp only [extNum_lt, lt_fin, Bool.and_eq_true, decide_eq_true_eq] at c3
+        exact Full.wf ⟨lo, fl, x, f, rfl, c3.2.le⟩
+      · exact hfull.wf
+
+/-- once a root is bracketed, `updateBounds` keeps it bracketed and the bracket can only shrink -/
+theorem keeps_updateBounds (b : Bracket ExtRat) (x f : ExtRat) : Keeps b (updateBounds extNum b x f) := by
+  intro hg
+  obtain ⟨lo, fl, hi, fh, rfl, hle, hs⟩ := hg
+  have hg : Good (⟨fin lo, fin fl, fin hi, fin fh⟩ : Bracket ExtRat) := ⟨lo, fl, hi, fh, rfl, hle, hs⟩
+  unfold updateBounds
+  cases x <;> cases f <;> simp only [extNum_isFinite, isFinite_fin, isFinite_nan, isFinite_pinf, isFinite_ninf,
+    Bool.not_true, Bool.not_false, Bool.or_self, Bool.or_true, Bool.true_or, if_true, Bool.false_eq_true,
+    if_false] <;> try exact ⟨hg, Shrink.refl_of_good hg⟩
+  rename_i x f
+  simp only [extNum_isNaN, isNaN_fin, Bool.false_eq_true, if_false]
+  rw [if_neg (by rw [(sameSign_false_iff _ _).mpr hs]; simp)]
+  split_ifs with c1 c2 c3
+  · simp only [extNum_lt, lt_fin, Bool.and_eq_true, decide_eq_true_eq] at c2
+    refine ⟨⟨x, f, hi, fh, rfl, c2.2.le, ?_⟩, ⟨lo, hi, x, hi, rfl, rfl, rfl, rfl, c2.1.le, le_refl _⟩⟩
+    rw [← (sameSign_iff _ _).mp c1]; exact hs
+  · exact ⟨hg, Shrink.refl_of_good hg⟩
+  · simp only [extNum_lt, lt_fin, Bool.and_eq_true, decide_eq_true_eq] at c3
+    refine ⟨⟨lo, fl, x, f, rfl, c3.2.le, ?_⟩, ⟨lo, hi, lo, x, rfl, rfl, rfl, rfl, le_refl _, c3.1.le⟩⟩
+    exact fun e => c1 ((sameSign_iff _ _).mpr e)
+  · exact ⟨hg, Shrink.refl_of_good hg⟩
+
+/-- with a bracketed root `getNextRootEstimate` succeeds and its estimate lies in the bracket -/
+theorem nextRootEstimate_good {b : Bracket ExtRat} (hg : Good b) (x : ExtRat) :
+    ∃ y, nextRootEstimate extNum b x = (true, y) ∧ Inside b y := by
+  have hb := bracketed_of_good hg
+  obtain ⟨lo, fl, hi, fh, rfl, hle, hs⟩ := hg
+  have hmid : Inside (⟨fin lo, fin fl, fin hi, fin fh⟩ : Bracket ExtRat)
+      (extNum.div (extNum.add (fin lo) (fin hi)) extNum.two) := by
+    refine ⟨lo, hi, (lo + hi) / 2, rfl, rfl, ?_, ?_, ?_⟩
+    · simp [ExtRat.add, ExtRat.div]
+    · linarith
+    · linarith
+  unfold nextRootEstimate
+  rw [hb]
+  simp only [Bool.not_true, Bool.false_eq_true, if_false]
+  by_cases hz : fh - fl = 0
+  · have : extNum.isZero (extNum.sub (fin fh) (fin fl)) = true := by
+      simp [ExtRat.sub, ExtRat.add, ExtRat.neg, ExtRat.isZero, ← sub_eq_add_neg, hz]
+    rw [this]
+    simp only [Bool.not_true, Bool.false_eq_true, if_false]
+    exact ⟨_, rfl, hmid⟩
+  · have : extNum.isZero (extNum.sub (fin fh) (fin fl)) = false := by
+      simp [ExtRat.sub, ExtRat.add, ExtRat.neg, ExtRat.isZero, ← sub_eq_add_neg, hz]
+    rw [this]
+    simp only [Bool.not_false, if_true]
+    have hc : extNum.sub (fin lo) (extNum.mul (extNum.div (extNum.sub (fin hi) (fin lo)) (extNum.sub (fin fh) (fin fl))) (fin fl))
+        = fin (lo - (hi - lo) / (fh - fl) * fl) := by
+      simp [ExtRat.sub, ExtRat.add, ExtRat.neg, ExtRat.div, ExtRat.mul, ← sub_eq_add_neg, hz]
+    rw [hc]
+    split_ifs with hc2
+    · exact ⟨_, rfl, hmid⟩
+    · simp only [extNum_lt, lt_fin, Bool.or_eq_true, decide_eq_true_eq, not_or, not_lt] at hc2
+      exact ⟨_, rfl, lo, hi, _, rfl, rfl, rfl, hc2.1, hc2.2⟩
+
+/-- without a bracketed root `getNextRootEstimate` fails and leaves `x` alone -/
+theorem nextRootEstimate_bad {b : Bracket ExtRat} (hb : bracketed extNum b = false) (x : ExtRat) :
+    nextRootEstimate extNum b x = (false, x) := by
+  unfold nextRootEstimate; rw [hb]; rfl
+
+/-- with a bracketed root, whatever comes out of `iterate` lies in the bracket -/
+theorem iterate_good {b : Bracket ExtRat} (hg : Good b) (x : ExtRat) : Inside b (iterate extNum b x) := by
+  have hb := bracketed_of_good hg
+  obtain ⟨y, hy, hin⟩ := nextRootEstimate_good hg x
+  unfold iterate
+  rw [hb]
+  simp only [Bool.not_true, Bool.false_eq_true, if_false]
+  split_ifs with hc
+  · rw [hy]; exact hin
+  · obtain ⟨lo, fl, hi, fh, rfl, hle, hs⟩ := hg
+    cases x with
+    | fin q =>
+      simp only [extNum_isFinite, isFinite_fin, Bool.not_true, extNum_lt, lt_fin, Bool.false_or,
+        Bool.or_eq_true, decide_eq_true_eq, not_or, not_lt] at hc
+      exact ⟨lo, hi, q, rfl, rfl, rfl, hc.1, hc.2⟩
+    | pinf => simp at hc
+    | ninf => simp at hc
+    | nan => simp at hc
 
 end ext
 end TfelVerif.C09
